@@ -9,7 +9,7 @@ import ast
 from fractions import Fraction
 
 from . import values as V
-from .values import Cx, Arr, Arr2, Obj, Opaque, Unsupported, EngineError
+from .values import Cx, Arr, Arr2, Obj, Opaque, Unsupported, EngineError, Enum
 from .source import FuncInfo, ClassInfo, ModuleInfo, import_bindings
 
 
@@ -203,6 +203,7 @@ class Interp:
         self.trace_calls = []
         self.merge_mode = 0
         self.in_spec = 0
+        self.loop_stack = []
 
     def explore(self, thunk, on_path=None):
         """run ``thunk(self)`` on every feasible path; returns list of Path"""
@@ -301,6 +302,10 @@ class Interp:
     def truthy_concrete(self, v):
         if v is None:
             return False
+        if isinstance(v, Enum):
+            d = self.dom
+            falsy = V.b_or(V.s_eq(v.code, d.code_of(None)), V.s_eq(v.code, d.code_of(False)))
+            return self.branch(V.b_not(falsy))
         if isinstance(v, (bool, int, Fraction, str, tuple, list, dict)):
             return bool(v)
         if isinstance(v, Arr):
@@ -697,8 +702,12 @@ class Interp:
 
     def st_If(self, st, frame):
         c = self.eval(st.test, frame)
-        if self.merge_mode and hasattr(c, "e") and not self.dom.is_scalar(c) and hasattr(self, "merge_if"):
-            return self.merge_if(st, c, frame)
+        if self.merge_mode and hasattr(c, "e") and not self.dom.is_scalar(c):
+            kn = V.known(c)
+            if kn is None:
+                from . import loops
+                return loops.merge_if(self, st, c, frame)
+            c = kn
         if self.truth(c):
             self.exec_block(st.body, frame)
         else:
@@ -1098,7 +1107,7 @@ class Interp:
         if isinstance(op, ast.Is):
             return self.identical(a, b)
         if isinstance(op, ast.IsNot):
-            return not self.identical(a, b)
+            return V.b_not(self.identical(a, b))
         if isinstance(op, (ast.In, ast.NotIn)):
             r = self.contains(b, a)
             return r if isinstance(op, ast.In) else V.b_not(r)
@@ -1113,6 +1122,11 @@ class Interp:
                         r = V.b_and(r, V.s_eq(x, y))
                     return r if sym == "==" else V.b_not(r)
             return self.lib.array_compare(self, sym, a, b)
+        if isinstance(a, Enum) or isinstance(b, Enum):
+            if sym in ("==", "!="):
+                eq = self.py_equal(a, b)
+                return eq if sym == "==" else V.b_not(eq)
+            raise Unsupported("ordering comparison of an enumeration value")
         an, bn = V.is_num(a), V.is_num(b)
         if an and bn:
             return V.s_cmp(sym, a, b)
@@ -1130,6 +1144,10 @@ class Interp:
         raise Unsupported("comparison %s of %r and %r" % (sym, type(a).__name__, type(b).__name__))
 
     def py_equal(self, a, b):
+        if isinstance(a, Enum):
+            return V.enum_eq(a, b)
+        if isinstance(b, Enum):
+            return V.enum_eq(b, a)
         if isinstance(a, (list, tuple)) and isinstance(b, (list, tuple)):
             if len(a) != len(b) or type(a) != type(b):
                 return False
@@ -1148,6 +1166,11 @@ class Interp:
         return a is b
 
     def identical(self, a, b):
+        if isinstance(a, Enum) or isinstance(b, Enum):
+            e, o = (a, b) if isinstance(a, Enum) else (b, a)
+            if o is None or isinstance(o, (bool, Enum)):
+                return V.enum_eq(e, o)
+            return False
         if a is None or b is None:
             return a is b
         if isinstance(a, bool) or isinstance(b, bool):
@@ -1166,6 +1189,8 @@ class Interp:
         return a is b
 
     def contains(self, cont, x):
+        if isinstance(cont, dict) and isinstance(x, Enum):
+            cont = list(cont.keys())
         if isinstance(cont, dict):
             return any(self.py_equal(x, k) is True for k in cont.keys()) if not V.is_num(x) else any(
                 V.is_num(k) and V.s_eq(x, k) is True for k in cont.keys())
@@ -1348,6 +1373,10 @@ class Interp:
         idx = self.eval_index(slnode, frame)
         if isinstance(val, (list, tuple)):
             val = self.lib.as_array(self, val)
+        if self.merge_mode and isinstance(cont, (Arr, Arr2)) and getattr(self, "loop_stack", None):
+            if getattr(cont, "_born", 0) < self.loop_stack[-1].epoch:
+                from . import loops
+                return loops.record_setitem(self, cont, idx, val)
         if isinstance(cont, dict):
             cont[idx] = val
             return
